@@ -265,12 +265,122 @@ fn new_from_stage(specs_list: &[usize], alphabet: &Alphabet, max_nodes: usize, m
     total.into_inner().unwrap()
 }
 
+/// names for the long-batch stage (static strings, deliberately not in sorted order of creation)
+fn long_names() -> &'static [N] {
+    static NAMES: std::sync::OnceLock<Vec<N>> = std::sync::OnceLock::new();
+    NAMES.get_or_init(|| (0..2200).map(|i| -> N { Box::leak(format!("m{:04}", (i * 7919) % 2200).into_boxed_str()) }).collect())
+}
+
+/// Long batches: lengths around round numbers (where a size-gated fast path would switch on), with a
+/// failing edge at the start / middle / end and edges naming NEW nodes after it. Each batch call is
+/// compared with the reference model and, on every private index, with the single calls.
+fn long_batch_stage(tier: &str, rec: &Recorder) -> Counters {
+    let lens: Vec<usize> = if tier == "quick" { vec![2, 9, 17, 32, 33, 65, 100, 129, 257, 513, 1025] } else { vec![2, 3, 5, 9, 10, 11, 16, 17, 20, 21, 31, 32, 33, 50, 51, 63, 64, 65, 100, 101, 127, 128, 129, 255, 256, 257, 500, 501, 512, 513, 1000, 1001, 1024, 1025, 2049] };
+    let names = long_names();
+    let total = std::sync::Mutex::new(Counters::default());
+    par_for(96, |si| {
+        let specs = spec_from_index(si);
+        let mut c = Counters::default();
+        for &len in &lens {
+            for fail_at in [0usize, len / 2, len - 1] {
+                for fail_kind in 0..3 {
+                    // edges i: (x_{2i} -> x_{2i+1}) all new nodes; the failing edge is a duplicate of edge 0 (either
+                    // orientation) or a self-loop; two pre-existing nodes / one pre-existing edge in variant `pre`
+                    for pre in [false, true] {
+                        let mut es: Vec<EdgeSpec> = (0..len).map(|i| EdgeSpec { u: names[2 * i], v: names[2 * i + 1], w: f(1.0 + (i % 3) as f64), attr: None }).collect();
+                        let special = match fail_kind {
+                            0 => EdgeSpec { u: names[0], v: names[1], w: f(9.0), attr: None },
+                            1 => EdgeSpec { u: names[1], v: names[0], w: f(9.0), attr: None },
+                            _ => EdgeSpec { u: names[2 * fail_at], v: names[2 * fail_at], w: f(9.0), attr: None },
+                        };
+                        if fail_at == 0 && fail_kind < 2 && !pre {
+                            continue; // a duplicate needs an earlier copy
+                        }
+                        es[fail_at] = special;
+                        let mut pre_ops: Vec<Op> = vec![];
+                        if pre {
+                            pre_ops.push(Op::AddNode(names[1], Some(1)));
+                            pre_ops.push(Op::AddNode(names[0], None));
+                            pre_ops.push(Op::AddEdge(EdgeSpec { u: names[0], v: names[1], w: f(5.0), attr: None }));
+                        }
+                        for entry in 0..3 {
+                            c.inc("long_batches");
+                            c.inc("traces_validated_against_impl");
+                            let case = format!("lb:{si}:{len}:{fail_at}:{fail_kind}:{}:{entry}", pre as u8);
+                            let mut r = RefGraph::new(specs.clone());
+                            let (mut g, _) = build_real(&specs, &pre_ops);
+                            for o in &pre_ops {
+                                o.apply_ref(&mut r);
+                            }
+                            let op = match entry {
+                                0 => Op::AddEdges(es.clone()),
+                                1 => Op::AddEdgeTuples(es.iter().map(|e| (e.u, e.v)).collect()),
+                                _ => Op::AddEdges(es.clone()),
+                            };
+                            let mut fail = |clause: &str, call: &str, detail: String| {
+                                rec.record(Violation::new(clause, call, case.clone(), format!("specs: {}\nbatch of {len} edges, special edge #{fail_at} = {}->{} (kind {fail_kind}), pre-existing edge: {pre}\n{detail}", spec_str(&specs), es[fail_at].u, es[fail_at].v)).with_tags(vec!["long_batch".into()]));
+                            };
+                            let real = if entry == 2 {
+                                // new_from_nodes_and_edges with the pre-existing nodes given as nodes (the pre-existing edge first in the list)
+                                let nodes: Vec<std::sync::Arc<graphrs::Node<N, A>>> = if pre { vec![node_arc(names[1], Some(1)), node_arc(names[0], None)] } else { vec![] };
+                                let mut all = vec![];
+                                if pre {
+                                    all.push(EdgeSpec { u: names[0], v: names[1], w: f(5.0), attr: None });
+                                }
+                                all.extend(es.iter().cloned());
+                                match guarded(|| G::new_from_nodes_and_edges(nodes, all.iter().map(|e| e.arc()).collect(), specs.clone())) {
+                                    Err(pi) => {
+                                        rec.record(Violation::new("no_panic", "Graph::new_from_nodes_and_edges", case.clone(), pi.msg.clone()).with_panic(pi));
+                                        continue;
+                                    }
+                                    Ok(Ok(g2)) => {
+                                        g = g2;
+                                        ResKind::Ok
+                                    }
+                                    Ok(Err(e)) => ResKind::of_kind(&e.kind),
+                                }
+                            } else {
+                                match guarded(|| op.apply_real(&mut g)) {
+                                    Ok(k) => k,
+                                    Err(pi) => {
+                                        rec.record(Violation::new("no_panic", &op_call_name(&op), case.clone(), pi.msg.clone()).with_panic(pi));
+                                        continue;
+                                    }
+                                }
+                            };
+                            let exp = if entry == 1 { Op::AddEdgeTuples(es.iter().map(|e| (e.u, e.v)).collect()).apply_ref(&mut r) } else { op.apply_ref(&mut r) };
+                            if real != exp {
+                                c.inc("long_batch_result_mismatch");
+                                fail("result_kind", &op_call_name(&op), format!("expected {exp:?} got {real:?}"));
+                            }
+                            if exp != ResKind::Ok {
+                                c.inc("long_batches_failing");
+                            }
+                            if entry == 2 && real != ResKind::Ok {
+                                continue; // no graph is returned
+                            }
+                            if real_nodes(&g) != r.nodes {
+                                fail("node_list", &op_call_name(&op), format!("{} nodes in the graph, {} in the model; first difference at position {:?}", g.number_of_nodes(), r.nodes.len(), real_nodes(&g).iter().zip(r.nodes.iter()).position(|(a, b)| a != b)));
+                            }
+                            if real_edge_multiset(&g) != r.edge_multiset() {
+                                fail("edge_multiset", &op_call_name(&op), format!("{} edges in the graph, {} in the model", g.get_all_edges().len(), r.edges.len()));
+                            }
+                        }
+                    }
+                }
+            }
+        }
+        total.lock().unwrap().merge(&c);
+    });
+    total.into_inner().unwrap()
+}
+
 pub fn run(tier: &str, rec: &Recorder) -> RunOutput {
     let start = Instant::now();
     let mut out = RunOutput::new("model_checking");
     let cap = wall_cap_s(tier);
     let stages: Vec<(&'static str, usize, usize)> = if tier == "quick" {
-        vec![("full2", 5, 2)]
+        vec![("full2", 4, 2), ("mix2", 5, 0)]
     } else {
         vec![("full2", 6, 3), ("full3", 4, 1), ("full3b", 2, 1), ("sliceW3", 5, 0), ("sliceA2", 7, 0)]
     };
@@ -299,6 +409,10 @@ pub fn run(tier: &str, rec: &Recorder) -> RunOutput {
     for (k, v) in &c.0 {
         out.add(k, *v);
     }
+    let lb = long_batch_stage(tier, rec);
+    for (k, v) in &lb.0 {
+        out.add(k, *v);
+    }
     out.set(
         "rule",
         "every history over the alphabet (add_node x attrs, add_edge x ordered pairs x weights {NaN,1,2} (+1 attribute variant), add_edge_tuple, add_nodes, add_edges/add_edge_tuples batches) up to the depth bound from every reached state, for all 96 GraphSpecs; states are deduplicated by the canonical snapshot of all private indexes; each transition is compared with the reference model",
@@ -317,6 +431,7 @@ pub fn run(tier: &str, rec: &Recorder) -> RunOutput {
         "node_readd_attr_changed",
         "batch_failed_after_nonempty_prefix",
         "new_from_err",
+        "long_batches_failing",
     ] {
         out.require_nonzero(k);
     }
